@@ -1,3 +1,4 @@
+import FrappyModel.Generated.C20
 import FrappyModel.Node.Logging
 import FrappyModel.Small.Rotate
 import FrappyModel.Spec.C20
